@@ -91,3 +91,7 @@ def check(chk):
               'next(): new page iterator, recursion handles empty pages, StopIteration when no more pages', 'iteration over pages changed')
     rs = cl.func('ResponseFuture.result')
     chk.judge('ResultSet(self, self._final_result)' in src(rs), 'C18.resultset', rs, 'each page result is wrapped in a ResultSet bound to this future', 'result wrapping changed')
+
+    # the paging state travels in the request body: its position among the optional fields is the wire layout of QUERY / EXECUTE
+    chk.rule('C18.wire', 'QUERY / EXECUTE bodies carry <paging_state> at the position and under the flag the specification gives')
+    chk.borrow('C03', {'C03.layout': 'C18.wire'}, 'the server reads another field where the paging state is expected: page 2 restarts or fails')
